@@ -238,10 +238,10 @@ def gen_script(rng):
                     front = ref.msg[:w]
                     ref.msg = ref.msg[w:]
                     ref.hr += w
-                    if None in front or (w == 4 and front[0] >= 0x80):
-                        e = {"state": ref.state()} if None in front else None
-                        if e is None:
-                            ref.valid = False            # int shift overflow in the accessor: undefined, nothing demanded
+                    if w == 4 and (front[0] is None or front[0] >= 0x80):
+                        ref.valid = False                # (possible) int shift overflow in the accessor: undefined, nothing demanded
+                    elif None in front:
+                        e = {"state": ref.state()}       # octets the script never wrote: the value is not judged
                     else:
                         e = {"ret": "v%d" % int.from_bytes(bytes(front), "big"), "state": ref.state()}
                 else:
@@ -389,7 +389,7 @@ def gen_queue(rng):
         f = ",".join(map(str, q)) or "-"
         b = ",".join(map(str, reversed(q))) or "-"
         exp.append("%sf:%s;b:%s" % (pre, f, b))
-    return "mb.q " + " ".join(toks), exp
+    return "mb.q " + " ".join(toks), (exp or ["ok"])
 
 
 def compare_ub(corr, reqs, impl_ans, model_ans, limit=50):
